@@ -11,7 +11,5 @@ CONSTANTS
   ProgChoices <- ChoicesCore2
   NoLock = {"spa"}
   LazyMap = FALSE
-INVARIANTS TypeOK MutualExclusion OwnerConsistent AtMostOneLockHeld GuardedWrite UnlockedReadsOnlyWhereDoubleChecked
-  InitOnce BuiltIffPublished UniqueScannerIds ReadStable StringPoolIdsFunctional LockedPoolConstant
-PROPERTIES PoolAppendOnly
+INVARIANTS StringPoolIdsFunctional
 CHECK_DEADLOCK TRUE
